@@ -18,7 +18,7 @@ TIERS = {
 }
 # further workloads for the property's online monitor (vf/online.py): the repository's tests and other checks' generated cases
 ONLINE = {'which': ['lock'], 'foreign': ['C05', 'C11', 'C14', 'C20'], 'n': {'quick': 40, 'thorough': 600}}
-REQUIRED_BUCKETS = ['op:finalize', 'op:bind', 'op:parse', 'op:macro', 'op:register', 'op:external', 'op:clear', 'op:unlock', 'op:unlock-raises',
+REQUIRED_BUCKETS = ['op:finalize', 'op:bind', 'op:parse', 'op:macro', 'op:register', 'op:register-same-object-again', 'op:external', 'op:clear', 'op:unlock', 'op:unlock-raises',
                     'op:unlock-nested', 'op:hookplan', 'op:poison', 'state:mutation-under-lock', 'state:double-finalize',
                     'state:unlock-while-locked', 'state:unlock-raises-while-locked', 'state:finalize-inside-unlock',
                     'reject:unbound-macro', 'reject:unevaluated-macro', 'reject:unknown-reference', 'reject:required',
@@ -86,7 +86,7 @@ def gen_ops(rng, depth=0, n=None):
     elif k < 0.48:
       ops.append(['macro', rng.randrange(100)])
     elif k < 0.54:
-      ops.append(['register', rng.choice(['register', 'external', 'configurable'])])
+      ops.append(['register', rng.choice(['register', 'external', 'configurable', 'again'])])
     elif k < 0.6:
       ops.append(['clear'])
     elif k < 0.78 and depth < 3:
@@ -235,6 +235,27 @@ def run_ops(ctx, m, ops, depth, shape):
         got_exc = e
       if not m.locked:
         m.set('c12m', 'gin.macro', 'value', canon(op[1]))
+    elif kind == 'register' and op[1] == 'again':
+      # an object that is already registered is registered again under the same name (accepted when unlocked): under the lock this is
+      # a registration like any other - it raises and the registry entry stays the very same one
+      ctx.bucket('op:register-same-object-again')
+      expect_exc = RuntimeError if m.locked else None
+      if 'again' not in _S:
+        def again(x=1, y=2):
+          return x
+        again.__name__ = 'c12again_' + ctx.uid
+        with gin.unlock_config():
+          gin.external_configurable(again, again.__name__, module='c12')
+        _S['again'] = again
+      again = _S['again']
+      entry = gc._REGISTRY['c12.' + again.__name__]
+      try:
+        call(lambda: gin.external_configurable(again, again.__name__, module='c12', **({'denylist': ['y']} if m.locked else {})))
+      except Exception as e:  # pylint: disable=broad-except
+        got_exc = e
+      if m.locked:
+        ctx.check(gc._REGISTRY['c12.' + again.__name__] is entry, 'registration-vs-lock', '%s: registering an already registered object again replaced its registry entry '
+                  '(denylist %r -> %r)' % (label, entry.denylist, gc._REGISTRY['c12.' + again.__name__].denylist))
     elif kind == 'register':
       api = op[1]
       ctx.bucket('op:external' if api == 'external' else 'op:register')
